@@ -95,6 +95,15 @@ Proof.
   destruct (store_rows prof ct t (map snd m')) as [c'| |]; reflexivity.
 Qed.
 
+Lemma exec_insert_check_pc prof c ct p ts tn rows :
+  exec_insert_check prof ct (pc c p) ts tn rows = exec_insert_check prof ct p ts tn rows.
+Proof.
+  unfold exec_insert_check. destruct (of_opt (find_table ts tn)) as [t| |]; cbn [rbind]; try reflexivity.
+  destruct (validate_new_rows t rows) as [[]| |]; cbn [rbind]; try reflexivity.
+  destruct (load_rows ct t) as [old| |]; cbn [rbind]; try reflexivity.
+  rewrite load_keyed_pc. reflexivity.
+Qed.
+
 (* ---- DELETE ----------------------------------------------------------------------------------------------------- *)
 Lemma remove_refs_pc prof c r : forall p, remove_refs prof (pc c p) r = rmap (pc c) (remove_refs prof p r).
 Proof.
@@ -225,7 +234,7 @@ Proof. reflexivity. Qed.
 Lemma pkg_create_table_sw prof c k tn cols :
   pkg_create_table prof (sw c k) tn cols = sw1 c (pkg_create_table prof k tn cols).
 Proof.
-  unfold pkg_create_table. rewrite !sw_tabs.
+  unfold pkg_create_table, pkg_create_table_with. rewrite !sw_tabs.
   destruct (negb (is_valid_tname tn)); [reflexivity|].
   destruct (existsb (str_eqb tn) CREATE_TABLE_EXTRA_RESERVED); [reflexivity|].
   destruct cols as [|col0 cols']; [reflexivity|]. set (cols := col0 :: cols').
@@ -237,6 +246,12 @@ Proof.
   destruct (rows_fit (find_table (k_tabs k) TABLES_TABLE_NAME) [[VStr tn]]) as [[|]| |];
   destruct (vrows_fit tn (find_table (k_tabs k) VALIDATION_TABLE_NAME) (validation_rows tn cols)) as [[|]| |];
   try reflexivity.
+  assert (Edry : forall n rows, catalog_dry_run prof (sw c k) n rows = catalog_dry_run prof k n rows).
+  { intros n rows. unfold catalog_dry_run. rewrite sw_tabs, sw_cont.
+    destruct (find_table (k_tabs k) n); [|reflexivity].
+    unfold sw, pkg_set_db_codepage. cbn [k_pool]. fold (pc c (k_pool k)). apply exec_insert_check_pc. }
+  rewrite !Edry. clear Edry.
+  destruct (if CREATE_TABLE_DRY_RUNS then _ else _) as [ud| |]; try reflexivity.
   rewrite pkg_insert_sw.
   destruct (pkg_insert prof k COLUMNS_TABLE_NAME (columns_rows tn cols)) as [k1 r1]. cbn [sw1 fst snd].
   destruct r1 as [u1| |]; try reflexivity.
